@@ -44,6 +44,20 @@ Fixpoint client (fs : list frame) : list nat * option nat :=
   | _ :: r => client r
   end.
 
+(* handleQuery's handleError: the error is written in-band (WriteError) AND
+   recorded on the query status endpoint (status.setError), which the client can
+   read with GET /query/status/{request id} for a while after the query ended. *)
+Definition status_endpoint (late : option nat) : option nat := late.
+
+(* what a client learns about a late error: the in-band control frame if one
+   arrived, otherwise the status endpoint *)
+Definition reported (ctrl fmt_has_ctrl : bool) (stats : list bool) (bs : list (list nat)) (late : option nat)
+  : option nat :=
+  match snd (client (server ctrl fmt_has_ctrl stats bs late)) with
+  | Some e => Some e
+  | None => status_endpoint late
+  end.
+
 (* ---- request/response codecs of the other endpoints, abstractly ---- *)
 Section Endpoints.
   Variables (Req Resp State Wire : Type).
